@@ -13,99 +13,37 @@ theorem bind_err {α β : Type} {x : Except ErrKind α} {f : α → Except ErrKi
   | error e' => left; simpa [bind, Except.bind] using h
   | ok a => right; exact ⟨a, rfl, by simpa [bind, Except.bind] using h⟩
 
-mutual
-theorem encodeValue_err : ∀ (v : PyVal) (e : ErrKind), encodeValue v = .error e → e = .value
-  | .bytes _, e, h => by simp [encodeValue, pure, Except.pure] at h
-  | .int _, e, h => by simp [encodeValue, pure, Except.pure] at h
-  | .str _, e, h => by simp [encodeValue, pure, Except.pure] at h
-  | .float .nan, e, h => by simpa [encodeValue, throw, throwThe, MonadExceptOf.throw, eq_comm] using h
-  | .float .pinf, e, h => by simpa [encodeValue, throw, throwThe, MonadExceptOf.throw, eq_comm] using h
-  | .float .ninf, e, h => by simpa [encodeValue, throw, throwThe, MonadExceptOf.throw, eq_comm] using h
-  | .float (.fin _ _ _), e, h => by simp [encodeValue, pure, Except.pure] at h
-  | .bool _, e, h => by simp [encodeValue, pure, Except.pure] at h
-  | .dict kvs, e, h => by
-    simp only [encodeValue] at h
-    split at h
-    · rcases bind_err h with h1 | ⟨a, _, h2⟩
-      · exact encodeItems_err kvs e h1
-      · simp [pure, Except.pure] at h2
-    · simpa [throw, throwThe, MonadExceptOf.throw, eq_comm] using h
-  | .list l, e, h => by
-    simp only [encodeValue] at h
-    rcases bind_err h with h1 | ⟨a, _, h2⟩
-    · exact encodeList_err l e h1
-    · simp [pure, Except.pure] at h2
-  | .tuple l, e, h => by
-    simp only [encodeValue] at h
-    rcases bind_err h with h1 | ⟨a, _, h2⟩
-    · exact encodeList_err l e h1
-    · simp [pure, Except.pure] at h2
-  | .datetime (some _), e, h => by simp [encodeValue, pure, Except.pure] at h
-  | .datetime none, e, h => by simpa [encodeValue, throw, throwThe, MonadExceptOf.throw, eq_comm] using h
-  | .none, e, h => by simpa [encodeValue, throw, throwThe, MonadExceptOf.throw, eq_comm] using h
-  | .other _, e, h => by simpa [encodeValue, throw, throwThe, MonadExceptOf.throw, eq_comm] using h
-theorem encodeList_err : ∀ (l : List PyVal) (e : ErrKind), encodeList l = .error e → e = .value
-  | [], e, h => by simp [encodeList, pure, Except.pure] at h
-  | v :: r, e, h => by
-    simp only [encodeList] at h
-    rcases bind_err h with h1 | ⟨a, _, h2⟩
-    · exact encodeValue_err v e h1
-    · rcases bind_err h2 with h3 | ⟨b, _, h4⟩
-      · exact encodeList_err r e h3
-      · simp [pure, Except.pure] at h4
-theorem encodeItems_err : ∀ (l : List (PyVal × PyVal)) (e : ErrKind), encodeItems l = .error e → e = .value
-  | [], e, h => by simp [encodeItems, pure, Except.pure] at h
-  | (k, v) :: r, e, h => by
-    simp only [encodeItems] at h
-    rcases bind_err h with h1 | ⟨a, _, h2⟩
-    · exact encodeValue_err v e h1
-    · rcases bind_err h2 with h3 | ⟨b, _, h4⟩
-      · exact encodeItems_err r e h3
-      · split at h4
-        · simp [pure, Except.pure] at h4
-        · simpa [throw, throwThe, MonadExceptOf.throw, eq_comm] using h4
-end
+theorem bind_ok {α β : Type} {x : Except ErrKind α} {f : α → Except ErrKind β} {b : β}
+    (h : x >>= f = .ok b) : ∃ a, x = .ok a ∧ f a = .ok b := by
+  cases x with
+  | error e' => simp [bind, Except.bind] at h
+  | ok a => exact ⟨a, rfl, by simpa [bind, Except.bind] using h⟩
 
-attribute [local irreducible] intTooBig in
-mutual
-theorem ser_err : ∀ (v : BVal) (e : ErrKind), ser v = .error e → e = .value
-  | .int i, e, h => by
-    rw [ser] at h
-    cases hb : intTooBig i
-    · rw [hb] at h; exact absurd h (by simp [pure, Except.pure])
-    · rw [hb] at h
-      have : (Except.error ErrKind.value : Except ErrKind Bytes) = .error e := h
-      injection this with h'; exact h'.symm
-  | .bytes _, e, h => by simp [ser, pure, Except.pure] at h
-  | .list l, e, h => by
-    simp only [ser] at h
-    rcases bind_err h with h1 | ⟨a, _, h2⟩
-    · exact serList_err l e h1
-    · simp [pure, Except.pure] at h2
-  | .dict kvs, e, h => by
-    simp only [ser] at h
-    rcases bind_err h with h1 | ⟨a, _, h2⟩
-    · exact serItems_err kvs e h1
-    · simp [pure, Except.pure] at h2
-theorem serList_err : ∀ (l : List BVal) (e : ErrKind), serList l = .error e → e = .value
-  | [], e, h => by simp [serList, pure, Except.pure] at h
-  | v :: r, e, h => by
-    simp only [serList] at h
-    rcases bind_err h with h1 | ⟨a, _, h2⟩
-    · exact ser_err v e h1
-    · rcases bind_err h2 with h3 | ⟨b, _, h4⟩
-      · exact serList_err r e h3
-      · simp [pure, Except.pure] at h4
-theorem serItems_err : ∀ (l : List (Bytes × BVal)) (e : ErrKind), serItems l = .error e → e = .value
-  | [], e, h => by simp [serItems, pure, Except.pure] at h
-  | (k, v) :: r, e, h => by
-    simp only [serItems] at h
-    rcases bind_err h with h1 | ⟨a, _, h2⟩
-    · exact ser_err v e h1
-    · rcases bind_err h2 with h3 | ⟨b, _, h4⟩
-      · exact serItems_err r e h3
-      · simp [pure, Except.pure] at h4
-end
+theorem encodeValue_err (v : PyVal) (e : ErrKind) (h : encodeValue v = .error e) : e = .value := by
+  unfold encodeValue at h
+  split at h
+  · exact absurd h (by simp)
+  · simpa [eq_comm] using h
+
+theorem encodeValue_ok {v : PyVal} {u : BVal} (h : encodeValue v = .ok u) :
+    Codec.encodeValue v = .ok u := by
+  unfold encodeValue at h
+  split at h
+  · rename_i b hb; simp only [Except.ok.injEq] at h; rw [hb, h]
+  · exact absurd h (by simp)
+
+theorem ser_err (v : BVal) (e : ErrKind) (h : ser v = .error e) : e = .value := by
+  unfold ser at h
+  split at h
+  · exact absurd h (by simp)
+  · simpa [eq_comm] using h
+
+theorem ser_ok {v : BVal} {bs : Bytes} (h : ser v = .ok bs) :
+    Bencode.serOk v = true ∧ bs = Bencode.ser v := by
+  unfold ser at h
+  split at h
+  · rename_i hs; simp only [Except.ok.injEq] at h; exact ⟨hs, h.symm⟩
+  · exact absurd h (by simp)
 
 theorem valueToMetainfo_err {α : Type} (x : Except ErrKind α) (hx : ∀ e, x = .error e → e = .value)
     (e : ErrKind) (h : valueToMetainfo x = .error e) : e = .metainfo := by
@@ -115,6 +53,13 @@ theorem valueToMetainfo_err {α : Type} (x : Except ErrKind α) (hx : ∀ e, x =
     have := hx e' rfl
     subst this
     simpa [valueToMetainfo, eq_comm] using h
+
+theorem valueToMetainfo_ok {α : Type} {x : Except ErrKind α} {a : α}
+    (h : valueToMetainfo x = .ok a) : x = .ok a := by
+  unfold valueToMetainfo at h
+  split at h
+  · exact absurd h (by simp)
+  · exact h
 
 /-- `bencode.encode(encode_dict(d))` wrapped in `except ValueError` only raises MetainfoError -/
 theorem convertSer_err (kvs : List (PyVal × PyVal)) (e : ErrKind)
